@@ -45,6 +45,7 @@ struct DlogGame {
 	size_t k;
 	std::vector<BarnettSmartVTMF_dlog *> v;
 	std::vector<mcenv::CoinSource> coins;   // one per player, index k = group generation
+	std::vector<std::string> pk;            // published keys (h_i, c, r) in player order
 	std::string err;                        // non-empty: set-up failed (what)
 	bool harness_err;                       // the failure is the harness' (unsuitable parameters), not the library's
 
@@ -136,7 +137,7 @@ struct DlogGame {
 					return false;
 				}
 			}
-			std::vector<std::string> pk(k);
+			pk.assign(k, std::string());
 			for (size_t j = 0; j < k; j++)
 			{
 				as(j);
@@ -180,6 +181,104 @@ struct DlogGame {
 		catch (std::exception &e)
 		{
 			err = std::string("exception during group/key set-up: ") + e.what();
+			mcenv::cur = nullptr;
+			return false;
+		}
+		mcenv::cur = nullptr;
+		return true;
+	}
+
+	// all public keys h_i pairwise distinct?  (In a toy group two players may draw the same secret exponent; the class
+	// indexes the other players' keys by fingerprint, so removing the key of one of them would also drop the other's.
+	// Membership-change cells are therefore run on key sets with distinct public keys only.)
+	bool keys_distinct() const
+	{
+		for (size_t i = 0; i < k; i++)
+			for (size_t j = i + 1; j < k; j++)
+				if (!mpz_cmp(v[i]->h_i, v[j]->h_i))
+					return false;
+		return true;
+	}
+
+	// Membership change after key generation: player L leaves — every remaining player calls
+	// KeyGenerationProtocol_RemoveKey(L's published key) and KeyGenerationProtocol_Finalize().  With rejoin, L comes back as
+	// a fresh instance over the published group with a fresh key, and everybody runs UpdateKey / Finalize again.
+	// Afterwards the active players are renumbered 0..k-1 (the instance of a player that left for good is kept behind
+	// index k only to be released).  Returns false with err set if a protocol step is refused / throws.
+	bool change_membership(size_t L, bool rejoin)
+	{
+		try
+		{
+			for (size_t i = 0; i < k; i++)
+			{
+				if (i == L)
+					continue;
+				as(i);
+				std::stringstream in(pk[L]);
+				if (!v[i]->KeyGenerationProtocol_RemoveKey(in))
+				{
+					err = "KeyGenerationProtocol_RemoveKey refuses the key of the leaving player " + drv::str(L) + " (at player " + drv::str(i) + ")";
+					mcenv::cur = nullptr;
+					return false;
+				}
+				v[i]->KeyGenerationProtocol_Finalize();
+			}
+			if (rejoin)
+			{
+				std::stringstream grp;
+				v[0 == L ? 1 : 0]->PublishGroup(grp);
+				as(L);
+				delete v[L];
+				v[L] = nullptr;
+				v[L] = make_other(grp);
+				v[L]->KeyGenerationProtocol_GenerateKey();
+				std::stringstream o;
+				v[L]->KeyGenerationProtocol_PublishKey(o);
+				pk[L] = o.str();
+				for (size_t j = 0; j < k; j++)
+				{
+					if (j == L)
+						continue;
+					std::stringstream in(pk[j]);
+					if (!v[L]->KeyGenerationProtocol_UpdateKey(in))
+					{
+						err = "re-joining player " + drv::str(L) + ": KeyGenerationProtocol_UpdateKey rejects the honest key of player " + drv::str(j);
+						mcenv::cur = nullptr;
+						return false;
+					}
+				}
+				v[L]->KeyGenerationProtocol_Finalize();
+				for (size_t i = 0; i < k; i++)
+				{
+					if (i == L)
+						continue;
+					as(i);
+					std::stringstream in(pk[L]);
+					if (!v[i]->KeyGenerationProtocol_UpdateKey(in))
+					{
+						err = "player " + drv::str(i) + ": KeyGenerationProtocol_UpdateKey rejects the honest fresh key of the re-joining player " + drv::str(L);
+						mcenv::cur = nullptr;
+						return false;
+					}
+					v[i]->KeyGenerationProtocol_Finalize();
+				}
+			}
+			else
+			{
+				// renumber: move L behind the active players
+				BarnettSmartVTMF_dlog *gone = v[L];
+				v.erase(v.begin() + L);
+				v.push_back(gone);
+				mcenv::CoinSource cgone = coins[L];
+				coins.erase(coins.begin() + L);
+				coins.push_back(cgone);
+				pk.erase(pk.begin() + L);
+				k = k - 1;
+			}
+		}
+		catch (std::exception &e)
+		{
+			err = std::string("exception during membership change: ") + e.what();
 			mcenv::cur = nullptr;
 			return false;
 		}
